@@ -58,11 +58,18 @@ func propsStageTable(c *core.Ctx, fn *ssa.Function, maxProcs int) (rs rows, runs
 			for i, k := range lst {
 				procs.Elems = append(procs.Elems, absint.NewTok(fmt.Sprintf("p%d:%s", i, k), k))
 			}
+			var regState *absint.Tok
+			regTried := false
 			t.field = func(ip *absint.Interp, obj *absint.Tok, name string, typ types.Type) absint.Value {
-				if sl, ok := typ.Underlying().(*types.Slice); ok && types.IsInterface(sl.Elem()) && obj == self {
+				if sl, ok := typ.Underlying().(*types.Slice); ok && types.IsInterface(sl.Elem()) && partOfState(obj, self) {
 					return dispatchList(c, t, name, procs)
 				}
-				if b, ok := typ.Underlying().(*types.Basic); ok && b.Kind() == types.Bool && obj == self {
+				if partOfState(obj, self) {
+					if v := policyField(c, t, procs, name, typ, &regState, &regTried); v != nil {
+						return v
+					}
+				}
+				if b, ok := typ.Underlying().(*types.Basic); ok && b.Kind() == types.Bool && partOfState(obj, self) {
 					return absint.Bool(true)
 				}
 				return nil
